@@ -313,7 +313,8 @@ pub fn c13(a: &Args) {
             out.sample(format!("CNF-loaded model: {}", text.replace('\n', " / ")));
         }
     }
-    out.finish("nnf-loaded models (and, judged by the oracle only, a model loaded from a CNF with clause-update / undo-update / save-cnf lines): every line `command t1 t2` (quick: the two-token level thinned to a quarter) over 14 commands x 37 tokens (all parameter keywords in both spellings, numbers, ranges, 0, out-of-range and extreme numbers, malformed numbers, a path), random longer lines with 1..3 parameter groups (duplicates injected), printable junk, empty lines, the inputs of the repaired defects; each reply: no panic, result or E1..E6, rejected line leaves the model unchanged, count/sat answers of the well-formed subset vs truth table, parameter groups permuted; every reply compared with the Lean model of handle_stream_msg (exact text where literal, code otherwise) on one long-lived instance (cursor state included). Lines asking `random`/`t-wise` for more than 10^4 / t>3 samples are skipped (resource question, not modelled).");
+    crate::cli_props::cli_pass(a, &mut out, &mut rng, &["stream-queries", "stream"]);
+    out.finish("(+ CLI pass: the rebuilt binary's `stream-queries / stream` on a sample of the models) nnf-loaded models (and, judged by the oracle only, a model loaded from a CNF with clause-update / undo-update / save-cnf lines): every line `command t1 t2` (quick: the two-token level thinned to a quarter) over 14 commands x 37 tokens (all parameter keywords in both spellings, numbers, ranges, 0, out-of-range and extreme numbers, malformed numbers, a path), random longer lines with 1..3 parameter groups (duplicates injected), printable junk, empty lines, the inputs of the repaired defects; each reply: no panic, result or E1..E6, rejected line leaves the model unchanged, count/sat answers of the well-formed subset vs truth table, parameter groups permuted; every reply compared with the Lean model of handle_stream_msg (exact text where literal, code otherwise) on one long-lived instance (cursor state included). Lines asking `random`/`t-wise` for more than 10^4 / t>3 samples are skipped (resource question, not modelled).");
 }
 
 /// debugging aid: `vharness streamprobe --out FILE`: first line `p cnf ..` + clauses until a line `---`, then stream lines
